@@ -1076,6 +1076,16 @@ class Interp:
 
     def cmp(self, st, op, la, lb):
         d = la - lb
+        if len(d.terms) > 1:
+            # atoms that have a single value on this path are constants (a sentinel passed as an argument)
+            folded = Lin.const(d.c)
+            for (a, k) in d.terms:
+                sv = st.aset(a)
+                if sv.is_single():
+                    folded = folded + k * sv.single()
+                else:
+                    folded = folded + Lin.atom(a, k)
+            d = folded
         if op == "Eq" or op == "Ne":
             sa = d.single_atom()
             if d.is_const():
